@@ -216,7 +216,7 @@ fn run_fixture(label: &str, emb: VfsPath, phys: VfsPath, depth: usize, out: &mut
         let sib = at(&emb, &format!("{}/copy-target", parent_of(p))).unwrap();
         // (name, result, must_be_not_supported, may_be_ok)
         let calls: Vec<(&str, Result<R<()>, String>, bool, bool)> = vec![
-            ("create_dir", guard(|| e.create_dir().map_err(|x| einfo(&x))), parent_dir && !model.exists(p), false),
+            ("create_dir", guard(|| e.create_dir().map_err(|x| einfo(&x))), parent_dir, false),
             ("create_dir_all", guard(|| e.create_dir_all().map_err(|x| einfo(&x))), false, p.is_empty()),
             ("create_file", guard(|| PathApi::write_file(&e, b"w")), parent_dir && !model.is_dir(p), false),
             ("append_file", guard(|| PathApi::append(&e, b"w")), model.is_file(p), false),
